@@ -6,7 +6,7 @@
    with a non-NOT row and exactly those direct terms, C01-C03 statements on everything derived).
    The theorems are about the byte-level text functions of the Gallina transcription
    (Model/Text.v).  PARTIAL: the file-level statement parse(render F) = F is not yet a theorem. *)
-From HpoV Require Import Gen.Consts Model.Base Model.Group Model.Onto Model.Binary Model.TermId Model.Text Proofs.C09P Proofs.C20P Proofs.C09G.
+From HpoV Require Import Gen.Consts Model.Base Model.Group Model.Onto Model.Binary Model.TermId Model.Text Proofs.C09P Proofs.C20P Proofs.C09G Proofs.DistP Proofs.AcyclicP Proofs.AnnotP Proofs.ReloadP Proofs.JaxP.
 
 Theorem C09_split_inverts_join : forall b ps, ps <> [] -> Forall (no_byte b) ps ->
   split_byte b (join_byte b ps) [] = ps.
@@ -91,6 +91,16 @@ Theorem C09_rendered_disease_row : forall om k d name isnot q h tail, (0 < k)%na
   dis_row_ok (mkDisRow om (digits k d) d name isnot q (show h) h tail).
 Proof. exact rendered_dis_row_ok. Qed.
 
+(* BOTH LOADERS (from_standard / from_standard_transitive): whenever the load succeeds on files whose
+   hp.obo names only is_a targets that have their own [Term] stanza, the ontology satisfies the
+   statements proved of Builder-built ontologies — every ancestor cache is exactly the transitive
+   closure (C01), the graph is acyclic, every term carries exactly the annotations with a direct
+   row at the term or at one of its descendants (C02), and the information content is
+   calculate (number of records, number of annotations) for each kind (C03) *)
+Theorem C09_loaded_ontologies_satisfy_C01_C02_C03 : forall icf tr obo genes hpoa o, obo_closed obo ->
+  load_jax icf tr obo genes hpoa = Ok o -> qgood o /\ acyclic (o_arena o) /\ ann_ok o /\ ic_ok icf o.
+Proof. exact load_jax_ok. Qed.
+
 Print Assumptions C09_split_inverts_join.
 Print Assumptions C09_strip_prefix.
 Print Assumptions C09_key_value_line.
@@ -105,3 +115,4 @@ Print Assumptions C09_gene_file.
 Print Assumptions C09_hpoa_file.
 Print Assumptions C09_rendered_gene_row.
 Print Assumptions C09_rendered_disease_row.
+Print Assumptions C09_loaded_ontologies_satisfy_C01_C02_C03.
